@@ -8,6 +8,7 @@ import VaxisModel.Model.TermKey
 import VaxisModel.Model.TermMouse
 import VaxisModel.Spec.TermInput
 import VaxisModel.Lemmas.TermInput
+import VaxisModel.Props.C13
 
 namespace VaxisModel.Props.C13Ext
 open VaxisModel.Model.Key VaxisModel.Model.Mouse VaxisModel.Model.TermKey VaxisModel.Model.TermMouse
@@ -158,15 +159,16 @@ structure CasedPair (u : Uni) (c C : Int) : Prop where
 def ShiftShape (k : Key) (c C : Int) : Prop :=
   k.keycode = c ∧ (k.shifted = C ∨ k.shifted ≤ 0) ∧ (k.text = [] ∨ k.text = [C])
 
-/-- **shift_letter_roundtrip.** Shift + a cased letter of any script (any code point; hypotheses on the
-    `unicode` tables explicit in `CasedPair`), every event shape (`ShiftShape`), kitty-only modifiers
-    and all four key modes: the upper-case letter is written and Vaxis decodes it as an event matching
-    (key, Shift). -/
-theorem shift_letter_roundtrip (u : Uni) (k : Key) (pam ckm : Bool) (c C : Int)
-    (hm : xtermMods k = shiftBit) (hp : CasedPair u c C) (hs : ShiftShape k c C) :
+/-- Core of `shift_letter_roundtrip`: `u.toUpper c = C` is only needed for the event shape without a
+    shifted code and without text (the widget then upper-cases the key itself). -/
+theorem shift_letter_core (u : Uni) (k : Key) (pam ckm : Bool) (c C : Int)
+    (hm : xtermMods k = shiftBit)
+    (hU : u.isUpper C = true) (hL : u.toLower C = c) (hV : validRune C = true) (hpos : 0 < C)
+    (hkey : 32 ≤ c ∧ c < maxRune ∧ c ≠ 127)
+    (hkc : k.keycode = c) (hsh : k.shifted = C ∨ (k.shifted ≤ 0 ∧ (k.text = [C] ∨ u.toUpper c = C)))
+    (htx : k.text = [] ∨ k.text = [C]) :
     encodeXterm u k pam ckm = renderSeq (.print [C]) ∧ keyArrives u k (decodeKey u (.print [C])) := by
-  obtain ⟨hkc, hsh, htx⟩ := hs
-  obtain ⟨h32, hmax, h127⟩ := hp.key
+  obtain ⟨h32, hmax, h127⟩ := hkey
   have hm7 : k.mods &&& 7 = 1 := hm
   have ha : k.mods &&& ModAlt = 0 := by rw [and7 k.mods ModAlt (by decide), hm7]; decide
   have hc : k.mods &&& ModCtrl = 0 := by rw [and7 k.mods ModCtrl (by decide), hm7]; decide
@@ -176,18 +178,34 @@ theorem shift_letter_roundtrip (u : Uni) (k : Key) (pam ckm : Bool) (c C : Int)
     simp only [xm_eq, hm7]
     rw [encodeTables_char _ _ _ _ _ (by rw [hkc]; exact hmax) (Or.inl htab)]
     rcases htx with ht | ht
-    · rcases hsh with hsc | hsc
-      · have hpos := hp.pos
-        simp [ht, hkc, hmax, ModShift, ModAlt, ModCtrl, hsc, hpos, strOfRune, hp.valid, renderSeq]
-      · have : ¬ k.shifted > 0 := by omega
-        simp [ht, ha, hc, hkc, hmax, ModShift, ModAlt, ModCtrl, this, hp.up, strOfRune, hp.valid, renderSeq]
+    · rcases hsh with hsc | ⟨hsc, hup⟩
+      · simp [ht, hkc, hmax, ModShift, ModAlt, ModCtrl, hsc, hpos, strOfRune, hV, renderSeq]
+      · have hns : ¬ k.shifted > 0 := by omega
+        have hup' : u.toUpper c = C := by
+          rcases hup with h | h
+          · rw [ht] at h; simp at h
+          · exact h
+        simp [ht, hkc, hmax, ModShift, ModAlt, ModCtrl, hns, hup', strOfRune, hV, renderSeq]
     · simp [ht, ha, hc, renderSeq]
   · unfold keyArrives
-    rw [hm, decodeKey_print u [C] (by simp) (by simp only [List.headD_cons]; intro _; rw [hp.lower]; exact h127)]
+    rw [hm, decodeKey_print u [C] (by simp) (by simp only [List.headD_cons]; intro _; rw [hL]; exact h127)]
     have e : printExpected u [C] = { keycode := c, shifted := C, mods := shiftBit, text := [C] } := by
-      simp [printExpected, hp.upper, hp.lower]
+      simp [printExpected, hU, hL]
     rw [e, hkc]; unfold matchSpec
     exact Or.inl ⟨rfl, rfl⟩
+
+/-- **shift_letter_roundtrip.** Shift + a cased letter of any script (any code point; hypotheses on the
+    `unicode` tables explicit in `CasedPair`), every event shape (`ShiftShape`), kitty-only modifiers
+    and all four key modes: the upper-case letter is written and Vaxis decodes it as an event matching
+    (key, Shift). -/
+theorem shift_letter_roundtrip (u : Uni) (k : Key) (pam ckm : Bool) (c C : Int)
+    (hm : xtermMods k = shiftBit) (hp : CasedPair u c C) (hs : ShiftShape k c C) :
+    encodeXterm u k pam ckm = renderSeq (.print [C]) ∧ keyArrives u k (decodeKey u (.print [C])) := by
+  obtain ⟨hkc, hsh, htx⟩ := hs
+  exact shift_letter_core u k pam ckm c C hm hp.upper hp.lower hp.valid hp.pos hp.key hkc
+    (by rcases hsh with h | h
+        · exact Or.inl h
+        · exact Or.inr ⟨h, Or.inr hp.up⟩) htx
 
 /-- **alt_shift_letter_roundtrip.** Alt+Shift + a cased letter of any script: `ESC` + the upper-case
     letter is written (whatever text the event carries) and decodes to an event matching
@@ -222,6 +240,74 @@ theorem alt_shift_letter_roundtrip (u : Uni) (k : Key) (pam ckm : Bool) (c C : I
 /-- Non-vacuity: Go's ASCII tables give a `CasedPair` for a / A (and the same shape holds for
     ф / Ф, é / É … on Go's full tables — checked at run time by the harness). -/
 example : CasedPair asciiUni 97 65 := ⟨by decide, by decide, by decide, by decide, by decide, by decide⟩
+
+/-- **nonascii_key_roundtrip** (the key clause on the non-ASCII part of `XtermDomainU`, exactly what the
+    driver judges there). For every `unicode` table, every event whose key is a code point ≥ 128 and
+    whose chord the legacy protocol expresses readably (`xtermLegacyU … = some s`: unmodified, or Shift
+    with an upper-case shifted character whose lower case is the key) and which is a chord rather than
+    a text production, and all four key modes: the widget writes exactly `s`, and `s` decoded by Vaxis
+    matches the original key and modifiers. -/
+theorem nonascii_key_roundtrip (u : Uni) (k : Key) (pam ckm : Bool) (s : Seq)
+    (hd : xtermLegacyU u k.keycode (xtermMods k) (shiftedOf u k) = some s)
+    (hl : k.text.length ≤ 1) (hch : textIsChord u k = true) :
+    encodeXterm u k pam ckm = renderSeq s ∧ keyArrives u k (decodeKey u s) := by
+  unfold xtermLegacyU at hd
+  by_cases hr : 128 ≤ k.keycode ∧ k.keycode < maxRune ∧ validRune k.keycode = true
+  · simp only [hr, and_self, not_true_eq_false, if_false] at hd
+    obtain ⟨h128, hmax, hv⟩ := hr
+    by_cases hm0 : xtermMods k = 0
+    · simp only [hm0, if_true] at hd
+      by_cases hdel : u.isUpper k.keycode = true ∧ u.toLower k.keycode = 127
+      · simp [hdel] at hd
+      · simp only [hdel, if_false, Option.some.injEq] at hd
+        subst hd
+        have htext : k.text = [] ∨ k.text = [k.keycode] := by
+          simp only [textIsChord, producedChar, hm0, Bool.or_eq_true, decide_eq_true_eq] at hch
+          rcases hch with (h | h) | h
+          · exact absurd h (by decide)
+          · exact Or.inl h
+          · right; simpa using h
+        exact VaxisModel.Props.C13.plain_char_roundtrip u k pam ckm hm0 ⟨by omega, hmax, hv⟩ htext
+          (fun hu hl127 => hdel ⟨hu, hl127⟩)
+    · simp only [hm0, if_false] at hd
+      by_cases hms : xtermMods k = shiftBit
+      · simp only [hms, if_true] at hd
+        by_cases hS : u.isUpper (shiftedOf u k) = true ∧ u.toLower (shiftedOf u k) = k.keycode ∧
+            validRune (shiftedOf u k) = true ∧ 0 < shiftedOf u k
+        · simp only [hS, and_self, if_true, Option.some.injEq] at hd
+          subst hd
+          obtain ⟨hU, hL, hV, hpos⟩ := hS
+          have hprod : producedChar u k = shiftedOf u k := by simp [producedChar, hms, shiftBit]
+          have htext : k.text = [] ∨ k.text = [shiftedOf u k] := by
+            simp only [textIsChord, hprod, hms, Bool.or_eq_true, decide_eq_true_eq] at hch
+            rcases hch with (h | h) | h
+            · exact absurd h (by decide)
+            · exact Or.inl h
+            · exact Or.inr h
+          have hshape : k.shifted = shiftedOf u k ∨
+              (k.shifted ≤ 0 ∧ (k.text = [shiftedOf u k] ∨ u.toUpper k.keycode = shiftedOf u k)) := by
+            by_cases hsp : k.shifted > 0
+            · left; simp [shiftedOf, hsp]
+            · right
+              refine ⟨by omega, ?_⟩
+              cases htx : k.text with
+              | nil =>
+                right
+                by_cases hlow : u.isLower k.keycode = true
+                · simp [shiftedOf, hsp, htx, hlow]
+                · have : shiftedOf u k = 0 := by simp [shiftedOf, hsp, htx, hlow]
+                  omega
+              | cons a t =>
+                cases t with
+                | nil => left; simp [shiftedOf, hsp, htx]
+                | cons b t' => rw [htx] at hl; simp at hl
+          exact shift_letter_core u k pam ckm k.keycode (shiftedOf u k) hms hU hL hV hpos
+            ⟨by omega, hmax, by omega⟩ rfl hshape htext
+        · simp [hS] at hd
+      · simp [hms] at hd
+  · simp [hr] at hd
+
+example : xtermLegacyU asciiUni 1092 0 0 = some (.print [1092]) := by decide
 
 /-! ## Paste: whole payloads, any interleaving of boundaries -/
 
@@ -387,7 +473,7 @@ theorem mouse_legacy_total (u : Uni) (md : Modes) (m : Mouse)
     simp only [update, handleMouse, hne]
     cases b <;> cases d <;> cases mo <;> simp_all
   · by_cases h2 : m.event = EventMotion
-    · simp only [h1, h2, if_false, if_true] at hen
+    · simp only [h2, if_true] at hen
       simp only [update, handleMouse, h2, VaxisModel.Gen.Mouse.MouseNoButton]
       by_cases h3 : m.button = 3 <;> simp [h3] at hen ⊢ <;> cases b <;> cases d <;> cases mo <;> simp_all
     · simp [h1, h2] at hen
